@@ -113,6 +113,63 @@ theorem auth_gate_gen (r : Req) (hc : r.creds = true) (ha : r.auth ≠ .right) :
     (handle Gen.chain Gen.routes r).ops = [] ∧ (handle Gen.chainTracing Gen.routes r).ops = [] :=
   ⟨auth_gate _ _ r auth_outermost.1 hc ha, auth_gate _ _ r auth_outermost.2 hc ha⟩
 
+/-! ### the decision of `basicAuthHandler` (shape extracted into `Gen.authLogic`) -/
+
+/-- nil credentials pass through, the ok flag of `r.BasicAuth()` is checked, both refusals are 401 -/
+theorem auth_logic_shape :
+    Gen.authLogic.nilPassThrough = true ∧ Gen.authLogic.okChecked = true ∧
+    Gen.authLogic.noHeaderStatus = 401 ∧ Gen.authLogic.mismatchStatus = 401 := by decide
+
+/-- **the wrapper accepts exactly the configured pairs**: for every credentials map and every header, the
+    extracted logic lets a request through iff it carries a well-formed Basic header whose user AND password
+    are one configured pair -/
+theorem authOk_exact (creds : List (String × String)) (h : AuthHeader) :
+    authOk Gen.authLogic creds h = true ↔ ∃ u p, h = .basic u p ∧ (u, p) ∈ creds := by
+  cases h with
+  | none => simp [authOk, Gen.authLogic]
+  | malformed => simp [authOk, Gen.authLogic]
+  | basic user pass =>
+    simp only [authOk, Gen.authLogic, AuthCond.eval, List.any_eq_true, Bool.and_eq_true, beq_iff_eq]
+    constructor
+    · rintro ⟨⟨u, p⟩, hm, hu, hp⟩
+      simp only at hu hp
+      subst hu; subst hp
+      exact ⟨u, p, rfl, hm⟩
+    · rintro ⟨u, p, heq, hm⟩
+      injection heq with h1 h2
+      subst h1; subst h2
+      exact ⟨(user, pass), hm, rfl, rfl⟩
+
+/-- so the extracted logic classifies every header as the statement's notion of valid credentials does -/
+theorem auth_class_agrees (creds : List (String × String)) (h : AuthHeader) :
+    authClass Gen.authLogic creds h = specAuthClass creds h := by
+  have hv : authOk Gen.authLogic creds h = validCreds creds h := by
+    cases hb : validCreds creds h with
+    | true =>
+      rw [authOk_exact]
+      cases h with
+      | basic u p => exact ⟨u, p, rfl, by simpa [validCreds] using hb⟩
+      | none => simp [validCreds] at hb
+      | malformed => simp [validCreds] at hb
+    | false =>
+      cases ho : authOk Gen.authLogic creds h with
+      | false => rfl
+      | true =>
+        obtain ⟨u, p, rfl, hm⟩ := (authOk_exact creds h).mp ho
+        simp [validCreds, hm] at hb
+  unfold authClass specAuthClass
+  rw [hv]
+  cases h <;> rfl
+/-- the gate in concrete terms: any configured pairs, any header that is not one of them, any path, method, table -/
+theorem auth_gate_concrete (creds : List (String × String)) (hd : AuthHeader) (t : List Route) (r : Req)
+    (hc : r.creds = true) (ha : r.auth = authClass Gen.authLogic creds hd) (hv : validCreds creds hd = false) :
+    (handle Gen.chain t r).ops = [] := by
+  refine auth_gate Gen.chain t r auth_outermost.1 hc ?_
+  rw [ha, auth_class_agrees]
+  unfold specAuthClass
+  rw [hv]
+  cases hd <;> simp
+
 /-! ### the two recorded deviations of the unchanged tree that concern the server model -/
 
 /-- K20: the path matches a route pattern, no route has the method (and the method is not HEAD) -/
